@@ -157,6 +157,32 @@ pub fn ext_identc<'a>(s: &'a str, ctx: &mut Ctx) -> Result<(&'a str, usize), &'s
     log_x("ext_ident", s, Some(ctx), &r);
     r
 }
+/// Like `ext_ident`, but the function itself runs a (simulated) nested *traced* parse on the same thread before it
+/// answers - what an extern rule does that parses an embedded sub-language with another peginator grammar while
+/// tracing is on.  Re-entrancy must not disturb the outer parse or its trace.
+fn nested_core(s: &str) -> Result<(&str, usize), &'static str> {
+    use peginator::{IndentedTracer, ParseOk, ParseResult, ParseSettings, ParseState, ParseTracer};
+    let settings = ParseSettings::default();
+    let inner_input = "inner";
+    let mut tracer = IndentedTracer::new();
+    let st = ParseState::new(inner_input, &settings);
+    tracer.print_trace_start(&st, "Inner");
+    tracer.print_trace_start(&st, "InnerChild");
+    let r1: ParseResult<()> = Ok(ParseOk { result: (), state: st.clone() });
+    tracer.print_trace_result(&r1);
+    tracer.print_trace_result(&r1);
+    ident_core(s)
+}
+pub fn ext_nested(s: &str) -> Result<(&str, usize), &'static str> {
+    let r = nested_core(s);
+    log_x("ext_nested", s, None, &r);
+    r
+}
+pub fn ext_nestedc<'a>(s: &'a str, ctx: &mut Ctx) -> Result<(&'a str, usize), &'static str> {
+    let r = nested_core(s);
+    log_x("ext_nested", s, Some(ctx), &r);
+    r
+}
 externs! {
     ext_two ext_twoc two_core String;
     ext_zero ext_zeroc zero_core &'static str;
